@@ -320,7 +320,10 @@ class FusionART(BaseART):
         )
         cache = {k: cache_k for k, cache_k in enumerate(caches)}
         activation = sum(
-            [a * self.params["gamma_values"][k] for k, a in enumerate(activations)]
+            [
+                a * float(self.params["gamma_values"][k])
+                for k, a in enumerate(activations)
+            ]
         )
         return activation, cache
 
